@@ -41,6 +41,11 @@ inductive Mode where
   | ask | always | skip
   deriving DecidableEq, Repr, Inhabited
 
+/-- What `input()` does when the user is asked: types "n", types anything else, or raises (EOFError: no terminal). -/
+inductive Answer where
+  | n | other | eof
+  deriving DecidableEq, Repr, Inhabited
+
 /-- `FileFormat.value` — `_get_suffix`. -/
 def suffix : Format → String
   | .xml => ".xml"
@@ -96,6 +101,8 @@ structure Proc (Input Node Bytes Date : Type) where
   /-- `precision.decimals` -/
   gprec : Nat
   fs : String → Option Bytes
+  /-- names under which no file can be created (e.g. the directory does not exist): `tree.write` / `open` raise -/
+  unwritable : String → Bool
   /-- the writer objects, in order of construction -/
   ws : List (Writer Input Node Date)
 
@@ -103,12 +110,16 @@ inductive Op (Input Date : Type) where
   /-- `CommonRoadFileWriter(..., decimal_precision = prec, file_format = fmt)` (or the class itself) -/
   | new (fmt : Format) (inp : Input) (prec : Nat)
   /-- `ws[w].write_to_file(file, mode)` / `.write_scenario_to_file(file, mode)`;
-      `answerN`: the user types "n" when asked (only looked at for `Mode.ask` on an existing file);
+      `answer`: what `input()` does when asked (only looked at for `Mode.ask` on an existing file);
       `date`: what `datetime.datetime.today()` returns during this call -/
-  | write (w : Nat) (kind : Kind) (file : Option String) (mode : Mode) (answerN : Bool) (date : Date)
+  | write (w : Nat) (kind : Kind) (file : Option String) (mode : Mode) (answer : Answer) (date : Date)
+  /-- user code assigns the public module global: `precision.decimals = g` (as the test-suite does) -/
+  | setGlobal (g : Nat)
 
 inductive Outcome (Bytes : Type) where
   | created (id : Nat)
+  /-- an operation that is not a writer call (`setGlobal`) -/
+  | done
   | skipped
   | wrote (path : String) (b : Bytes)
   | failed (e : Err)
@@ -129,10 +140,16 @@ def resolveName (c : Codec Input Item Node Bytes Date Content) (w : Writer Input
     | f, _ => c.benchId w.inp ++ suffix f
 
 /-- `overwrite == "n"` for an existing file (interface.py:161-174; same text in XMLFileWriter.write_scenario_to_file). -/
-def keepExisting : Mode → Bool → Bool
-  | .ask, answerN => answerN
+def keepExisting : Mode → Answer → Bool
+  | .ask, .n => true
+  | .ask, _ => false
   | .skip, _ => true
   | .always, _ => false
+
+/-- `input(...)` raises: only when the user is asked, i.e. mode ASK on an existing file. -/
+def askRaises : Mode → Answer → Bool
+  | .ask, .eof => true
+  | _, _ => false
 
 /-- The objects one write turns into nodes. -/
 def itemsOf (c : Codec Input Item Node Bytes Date Content) (inp : Input) : Kind → List Item
@@ -245,7 +262,7 @@ def buildFor (sem : Sem) (c : Codec Input Item Node Bytes Date Content) (st : St
   | .pb => buildDocument c st1 i w.inp kind date
 
 def writeStep (sem : Sem) (c : Codec Input Item Node Bytes Date Content) (st : St Input Node Bytes Date)
-    (i : Nat) (kind : Kind) (file : Option String) (mode : Mode) (answerN : Bool) (date : Date) :
+    (i : Nat) (kind : Kind) (file : Option String) (mode : Mode) (answer : Answer) (date : Date) :
     St Input Node Bytes Date × Outcome Bytes :=
   match st.ws[i]? with
   | none => (st, .failed .index)
@@ -255,12 +272,14 @@ def writeStep (sem : Sem) (c : Codec Input Item Node Bytes Date Content) (st : S
     -- (`if not filename: return`) — all but XMLFileWriter.write_scenario_to_file, which goes on
     let viaHandle := !(w.fmt == .xml && kind == .scenarioOnly)
     if name = "" && viaHandle then (st, .skipped) else
-    if name ≠ "" && (st.fs name).isSome && keepExisting mode answerN then (st, .skipped) else
+    -- the user is asked and `input()` raises: nothing has happened yet
+    if name ≠ "" && (st.fs name).isSome && askRaises mode answer then (st, .failed .other) else
+    if name ≠ "" && (st.fs name).isSome && keepExisting mode answer then (st, .skipped) else
     match buildFor sem c st i w kind date with
     | (st2, some e) => (st2, .failed e)          -- a creator raised: nothing is written
     | (st2, none) =>
-      -- `tree.write("")` raises after the tree has been built
-      if name = "" then (st2, .failed .other) else
+      -- `tree.write("")` / `open(…)` in a directory that does not exist raise after the document has been built
+      if name = "" || st.unwritable name then (st2, .failed .other) else
       -- the file is dumped from the document as it is NOW
       match st2.ws[i]? with
       | none => (st2, .failed .index)
@@ -274,7 +293,8 @@ def step (sem : Sem) (c : Codec Input Item Node Bytes Date Content) (st : St Inp
     -- interface.py:57-58 `self._decimal_precision = …; precision.decimals = decimal_precision`;
     -- xml.py:164 root element / protobuf.py:95 message
     ({ st with gprec := prec, ws := st.ws ++ [⟨fmt, inp, prec, none, []⟩] }, .created st.ws.length)
-  | .write i kind file mode answerN date => writeStep sem c st i kind file mode answerN date
+  | .write i kind file mode answer date => writeStep sem c st i kind file mode answer date
+  | .setGlobal g => ({ st with gprec := g }, .done)
 
 def run (sem : Sem) (c : Codec Input Item Node Bytes Date Content) (st : St Input Node Bytes Date) :
     List (Op Input Date) → St Input Node Bytes Date × List (Outcome Bytes)
@@ -308,6 +328,8 @@ end
 structure SInput where
   id : Nat
   name : String
+  /-- the planning-problem set is not empty -/
+  hasPP : Bool := true
   /-- the planning problems cannot be written: the XML creator raises this … -/
   xmlErr : Option Err := none
   /-- … and the protobuf creator this -/
@@ -353,7 +375,7 @@ def symRead : SBytes → Option SContent
 def symCodec : Codec SInput SItem SNode SBytes String SContent where
   benchId := fun i => i.name
   scItems := fun i => [⟨false, i.id, none, none⟩]
-  ppItems := fun i => [⟨true, i.id, i.xmlErr, i.pbErr⟩]
+  ppItems := fun i => if i.hasPP then [⟨true, i.id, i.xmlErr, i.pbErr⟩] else []
   xmlNode := fun it p => match it.xmlErr with
     | some e => .error e
     | none => .ok ⟨it.pp, it.inp, p⟩
